@@ -51,6 +51,12 @@ INAMES = ["x", "y", "input", "node", "n", "s", "p", "data", "i0", "i1", "a.b", "
 PAYLOADS = [None, None, 0, 1, 2, 7, "p", "q", "", "a.b", ("t", 1), [1, 2]]
 
 
+# a tiny alphabet: texts of different fields run together ("a"+"ba" == "ab"+"a"), for anything that concatenates names
+TINY_NAMES = ["a", "b", "aa", "ab", "ba", "bb", "aaa", "aab", "aba", "abb", "baa", "bab", "bba", "bbb", "1", "10", "11", "0", "01", "1a", "a1"]
+TINY_OUTS = ["a", "b", "ab", "ba", "aa", "0", "1", "a1", "01", "u", "u1"]
+TINY_INS = ["a", "b", "ab", "ba", "x", "1", "a1", "1a"]
+
+
 def gen_outputs(rng):
     k = rng.randrange(10)
     if k < 4:
@@ -67,7 +73,8 @@ def gen_outputs(rng):
 def gen_spec(rng, flavour="plain", maxn=12):
     n = rng.choice([1, 2, 2, 3, 3, 4, 4, 5, 6, 7, 8, 10, maxn])
     n = min(n, maxn)
-    pool = list(NAMES)
+    tiny = flavour == "tiny"
+    pool = list(TINY_NAMES if tiny else NAMES)
     rng.shuffle(pool)
     names = pool[:n]
     if flavour == "dup-names" and n >= 2:
@@ -75,14 +82,16 @@ def gen_spec(rng, flavour="plain", maxn=12):
     nodes = []
     for i in range(n):
         outs = gen_outputs(rng)
-        if flavour in ("chain", "dups") and rng.random() < 0.7:
+        if flavour in ("chain", "dups") and rng.random() < (0.7 if flavour == "chain" else 0.45):
             outs = None
+        if tiny:
+            outs = rng.choice([None, [], rng.sample(TINY_OUTS, 2), rng.sample(TINY_OUTS, 2), rng.sample(TINY_OUTS, 3)])
         ins = []
         cands = [j for j in range(i) if (nodes[j]["outputs"] is None or nodes[j]["outputs"])]
         p_in = 0.85 if flavour != "wide" else 0.6
         if cands and rng.random() < p_in:
             k = rng.choice([1, 1, 2, 2, 3]) if flavour != "chain" else 1
-            for iname in rng.sample(INAMES, k):
+            for iname in rng.sample(TINY_INS if tiny else INAMES, k):
                 j = rng.choice(cands) if rng.random() < 0.6 else cands[-1]
                 po = nodes[j]["outputs"]
                 oname = "0" if po is None else rng.choice(po)
@@ -98,7 +107,12 @@ def gen_spec(rng, flavour="plain", maxn=12):
             c["name"] = nodes[j]["name"] + "'" * rng.choice([1, 2])
             if rng.random() < 0.4:
                 c["inputs"] = c["inputs"][::-1]
-            if c["inputs"] and rng.random() < 0.45:
+            multi = [x for x in c["inputs"] if len(nodes[x[1]]["outputs"] or ["0"]) > 1]
+            if multi and rng.random() < 0.6:
+                # a look-alike, not a duplicate: it reads ANOTHER OUTPUT of the same parent, everything else equal
+                x = rng.choice(multi)
+                x[2] = rng.choice([o for o in nodes[x[1]]["outputs"] if o != x[2]] or [x[2]])
+            elif c["inputs"] and rng.random() < 0.45:
                 # a look-alike, not a duplicate: same payload, outputs, input and output names, but one input comes from ANOTHER parent
                 x = rng.choice(c["inputs"])
                 alts = [q for q in range(len(nodes)) if q != x[1] and q != j and x[2] in (nodes[q]["outputs"] if nodes[q]["outputs"] is not None else ["0"])
@@ -435,13 +449,14 @@ def pay_class(p):
     return "none" if p is None else "int" if isinstance(p, int) else "str" if isinstance(p, str) else "seq"
 
 
-KFUNS = [("KHead", None), ("KHead", None), ("KConst", "k"), ("KPay", None), ("KOuts", None), ("KName", None)]
+KFUNS = [("KHead", None), ("KHead", None), ("KConst", "k"), ("KPay", None), ("KOuts", None), ("KName", None), ("KLast", None), ("KLen", None)]
 
 
 def kfun_py(kf):
     kind, s = kf
     return {"KHead": lambda n: n.name[:1], "KConst": lambda n: s, "KPay": lambda n: pay_class(n.payload),
-            "KOuts": lambda n: "sink" if not n.outputs else "one" if len(n.outputs) == 1 else "many", "KName": lambda n: n.name}[kind]
+            "KOuts": lambda n: "sink" if not n.outputs else "one" if len(n.outputs) == 1 else "many", "KName": lambda n: n.name,
+            "KLast": lambda n: n.name[-1:], "KLen": lambda n: "1" if len(n.name) % 2 else "0"}[kind]
 
 
 def kfun_coq(kf):
@@ -453,7 +468,43 @@ def coq_cut(c):
     return f"(mkCut {cstr(c.source_key)} {cstr(c.source_node)} {cstr(c.source_output)} {cstr(c.dest_key)} {cstr(c.dest_node)} {cstr(c.dest_input)})"
 
 
+class _N:
+    def __init__(self, nd):
+        self.name, self.payload, self.outputs = nd["name"], nd["payload"], (["0"] if nd["outputs"] is None else nd["outputs"])
+
+
+def concat_collisions(spec, kf):
+    """number of pairs of distinct cross-part edges whose field texts, written one after the other, read the same"""
+    keyf = kfun_py(kf)
+    reach = sorted(reachable(spec))
+    keys = {i: keyf(_N(spec["nodes"][i])) for i in reach}
+    edges = {(keys[j], spec["nodes"][j]["name"], o, keys[i], spec["nodes"][i]["name"], iname)
+             for i in reach for iname, j, o in spec["nodes"][i]["inputs"] if keys[i] != keys[j]}
+    texts = {}
+    for e in edges:
+        texts.setdefault("".join(e), []).append(e)
+    return sum(len(v) - 1 for v in texts.values())
+
+
+def adversarial_split_case(rng, tries=300):
+    """a tiny-alphabet graph and a key function under which two distinct cut edges have field texts that run together identically"""
+    best = None
+    for _ in range(tries):
+        spec = gen_spec(rng, "tiny", maxn=7)
+        for kf in KFUNS:
+            if concat_collisions(spec, kf):
+                return spec, kf
+        best = spec
+    return best, rng.choice(KFUNS)
+
+
 def drive_split(spec, rng, out):
+    if out.get("flavour") == "tiny" and rng.random() < 0.7:
+        spec2, kf = adversarial_split_case(rng)
+        spec.clear()
+        spec.update(spec2)
+        out["params"] = {"kfun": list(kf)}
+        return run_split(spec, kf, out)
     kf = rng.choice(KFUNS)
     out["params"] = {"kfun": list(kf)}
     return run_split(spec, kf, out)
@@ -499,6 +550,12 @@ def run_split(spec, kf, out):
                 continue
             if not any(c.name == o.name and ((c.source_key == k and not o.outputs) or (c.dest_key == k and not o.inputs)) for c in cuts):
                 return ("split-stray-node", f"split_graph: part {k!r} contains node {o.name!r} that is neither an input node nor a reported cut end")
+    # -- sink and source of a cut are found by the cut's name: distinct cut edges need distinct names
+    by_name = {}
+    for c in cuts:
+        f = (c.source_key, c.source_node, c.source_output, c.dest_key, c.dest_node, c.dest_input)
+        if by_name.setdefault(c.name, f) != f:
+            return ("split-cut-names-collide", f"split_graph: the distinct cut edges {by_name[c.name]!r} and {f!r} are both called {c.name!r}: re-joining by name cannot tell them apart")
     # -- re-join along the reported cuts: a source named like a cut stands for the input of the sink of that name
     cut_names = [c.name for c in cuts]
     if len(set(cut_names)) == len(cut_names):
@@ -866,8 +923,8 @@ REPLAYERS = {"copy": lambda spec, params, out: drive_copy(spec, None, out),
 CHECKERS = {"copy": "check_copy", "rename": "check_rename", "dedup": "check_dedup", "split": "check_split", "expand": "check_expand", "fuse": "check_fuse"}
 FLAVOURS = {"copy": ["plain", "plain", "wide", "chain", "dup-names"],
             "rename": ["plain", "plain", "wide", "chain", "dup-names"],
-            "dedup": ["dups", "dups", "plain", "dups", "chain", "dup-names"],
-            "split": ["plain", "plain", "wide", "chain"],
+            "dedup": ["dups", "dups", "plain", "dups", "chain", "dup-names", "tiny"],
+            "split": ["plain", "tiny", "wide", "tiny", "chain"],
             "expand": ["plain", "plain", "wide", "chain"],
             "fuse": ["plain", "chain", "wide", "chain", "plain"]}
 
@@ -948,9 +1005,10 @@ def run(ctx, res):
         for i in range(per):
             flavour = FLAVOURS[tr][i % len(FLAVOURS[tr])]
             spec = gen_spec(rng, flavour)
-            out = {"coq": [], "params": {}}
-            case = {"kind": "spec", "transformation": tr, "flavour": flavour, "spec": spec_to_json(spec)}
-            bad = drive(spec, rng, out)
+            out = {"coq": [], "params": {}, "flavour": flavour}
+            case = {"kind": "spec", "transformation": tr, "flavour": flavour}
+            bad = drive(spec, rng, out)       # (a driver may replace the spec by a more adversarial one of the same flavour)
+            case["spec"] = spec_to_json(spec)
             case["params"] = out["params"]
             res.evaluations += 1
             features(spec, res, tr)
@@ -998,7 +1056,7 @@ def search(ctx, res):
         for i in range(4000):
             flavour = FLAVOURS[tr][i % len(FLAVOURS[tr])]
             spec = gen_spec(rng, flavour, maxn=6)
-            out = {"coq": [], "params": {}}
+            out = {"coq": [], "params": {}, "flavour": flavour}
             try:
                 bad = drive(spec, rng, out)
             except Exception:
